@@ -88,6 +88,13 @@ class TOpt(T):
         return "Opt(%r)" % (self.t,)
 
 
+class TMaybe(T):
+    """a dict entry that may be absent (not: present with value None)"""
+
+    def __init__(self, t):
+        self.t = t
+
+
 class TFunc(T):
     """a callable parameter; `stub` is the python callable modelling it"""
 
@@ -129,6 +136,10 @@ def Opaque(n):
 
 def Opt(t):
     return TOpt(t)
+
+
+def Maybe_(t):
+    return TMaybe(t)
 
 
 _sorts = {}
